@@ -109,7 +109,7 @@ def c16_cases(tier, rng):
     return cases
 
 
-XALPHA = [b"+", b"=", b" ", b"\\", b"{", b"}", b"x", b"4", b"A", b"\x7f", "é".encode(), "€".encode(), "😀".encode()]
+XALPHA = [b"+", b"=", b" ", b"\\", b"{", b"}", b"x", b"4", b"A", b"\x7f", "é".encode(), "€".encode(), "😀".encode(), b"%", b"s"]
 
 
 def c14_cases(tier, rng):
@@ -129,7 +129,8 @@ def c14_cases(tier, rng):
                                     rrvszone=rng.choice([0, 0, 7200, -18000, 19800, -34200, 50400])))
             cases.append(c.case())
     # every option subset
-    fields_m = [("size", 12345), ("utf8", 1), ("ret", b"HDRS"), ("envid", b"id+1=x y"), ("auth", b"u@d"), ("body", b"8BITMIME")]
+    fields_m = [("size", 12345), ("utf8", 1), ("ret", b"HDRS"), ("envid", rng.choice([b"id+1=x y", b"50%off %s %d%%", b"100%"])),
+                ("auth", rng.choice([b"u@d", b"100%user@d.org", b"a%sb@d"])), ("body", b"8BITMIME")]
     fields_r = [("notify", [b"FAILURE", b"DELAY"]), ("orcpt", b"o r+@x"), ("rrvs", 1700000000)]
     import itertools
     for k in range(len(fields_m) + 1):
